@@ -191,9 +191,28 @@ def gate_cases(fe, thorough=False):
                     yield {'kind': 'g', 'fe': fe, 'pkt': p, 'route': r, 'reattach': True}
 
 
+def swap_cases(fe):
+    """the routing table changes while the validator of an incoming Interest is still deciding (latency 30 ms, the
+    change happens after 15): the prefix is detached - leaving a handler on the shorter prefix '/' whose own validator
+    (none, which means rejection in the current front-end; a refusing script in the legacy one) never accepts - or
+    detached and attached again with another handler and a validator of the opposite verdict.  Oracle only."""
+    verdicts = (V2_ALL if fe == 'v2' else V1_ALL)
+    pkts = [{'params': True, 'sig': False, 'digest_ok': True, 'sig_valid': True},
+            {'params': 'empty', 'sig': False, 'digest_ok': True, 'sig_valid': True},
+            {'params': True, 'sig': True, 'digest_ok': True, 'sig_valid': True},
+            {'params': False, 'sig': True, 'digest_ok': True, 'sig_valid': False},
+            {'params': True, 'sig': True, 'digest_ok': True, 'sig_valid': True, 'lp': True}]
+    for p in pkts:
+        for v in verdicts:
+            for sw in ('detach', 'reattach'):
+                yield {'kind': 'g', 'fe': fe, 'pkt': p, 'route': {'validator': {'verdict': v, 'lat': 30}}, 'swap': sw}
+
+
 def cases(rng, tier):
     for fe in ('v2', 'v1'):
         for c in gate_cases(fe, tier != 'quick'):
+            yield c
+        for c in swap_cases(fe):
             yield c
     for c in data_cases(tier != 'quick'):
         yield c
@@ -486,6 +505,18 @@ def run_gate(case):
                         rig.app.attach_handler(rig_name_variant(enc), lambda *a: log.append(['x', now()]), intruder0)
                         rig.app.detach_handler('/g')
                     rig.app.attach_handler('/g', handler, validator)
+                    if case.get('swap'):
+                        rig.app.attach_handler('/', lambda *a: log.append(['y', now()]), None)
+
+                        async def intruder2(name, sig, ctx):
+                            log.append(['w', now()])
+                            return types.ValidResult.FAIL if spec['verdict'] in ('PASS', 'ALLOW_BYPASS') \
+                                else types.ValidResult.PASS
+
+                        def do_swap():
+                            rig.app.detach_handler('/g')
+                            if case['swap'] == 'reattach':
+                                rig.app.attach_handler('/g', lambda *a: log.append(['x', now()]), intruder2)
                     if case.get('dup'):
                         async def intruder(name, sig, ctx):
                             log.append(['w', now()])
@@ -530,6 +561,20 @@ def run_gate(case):
                         rig.app.set_interest_filter(rig_name_variant(enc), lambda *a: log.append(['x', now()]), intruder0)
                         rig.app.unset_interest_filter('/g')
                     rig.app.set_interest_filter('/g', handler, validator)
+                    if case.get('swap'):
+                        async def refusing(name, sig):
+                            log.append(['u', now()])
+                            return False
+                        rig.app.set_interest_filter('/', lambda *a: log.append(['y', now()]), refusing)
+
+                        async def intruder2(name, sig):
+                            log.append(['w', now()])
+                            return not c03.V1_TRUTH.get(spec['verdict'])
+
+                        def do_swap():
+                            rig.app.unset_interest_filter('/g')
+                            if case['swap'] == 'reattach':
+                                rig.app.set_interest_filter('/g', lambda *a: log.append(['x', now()]), intruder2)
                     if case.get('dup'):
                         async def intruder(name, sig):
                             log.append(['w', now()])
@@ -542,6 +587,10 @@ def run_gate(case):
             loop.advance(c03.T0 + 0.010)
             rx = loop.create_task(rig.face.callback(rig._typ(wire), wire))      # as the faces do; kept, so that
             loop.settle()                                                        # whatever escapes it is seen
+            if case.get('swap'):
+                loop.advance(c03.T0 + 0.025)
+                do_swap()
+                log.append(['S', now()])
             loop.advance(c03.T0 + 0.500)
             errs = [list(e) for e in loop.errors if e[0] not in ('ScriptedError', 'TimeoutError')]
             if not rx.done():
@@ -631,7 +680,7 @@ def model_line(case, impl):
             return None
         toks = c03.model_events(case)
         return f"C05 h {case['fe']} {';'.join(toks) if toks else '.'}"
-    if case['kind'] == 'd':
+    if case['kind'] == 'd' or case.get('swap'):
         return None
     p, r = case['pkt'], case['route']
     bits = ''.join('1' if x else '0' for x in (p['params'], p['sig'], p['digest_ok'] is True))
@@ -683,6 +732,8 @@ def oracle_gate(case, impl):
     validated = acts.count('v')
     if 'D' in acts:
         return 'a second registration on an occupied prefix was not refused'
+    if case.get('swap'):
+        return oracle_swap(case, impl)
     if 'w' in acts or 'x' in acts:
         return (('a removed registration' if case.get('reattach') else 'a refused second registration')
                 + ' took effect: its ' + ('validator was consulted' if 'w' in acts else 'handler was invoked'))
@@ -731,6 +782,37 @@ def oracle_gate(case, impl):
             return 'an Interest that requires validation reached its handler without the validator being consulted'
         if acts.index('v') > acts.index('h'):
             return 'the handler ran before the validator'
+    return None
+
+
+def oracle_swap(case, impl):
+    """the routing table changed while the validator was deciding.  Whatever handler the Interest ends up at, the
+    validator registered WITH that handler must have accepted it first (and a handler without validator - current
+    front-end - must not get it at all); no handler twice.  Which of the handlers it should be is C04's business."""
+    fe, p, spec = case['fe'], case['pkt'], case['route']['validator']
+    acts = impl['acts']
+    if fe == 'v1' and not p['sig']:
+        return None                     # legacy: unsigned parameterised Interests are outside the statement
+    if sum(acts.count(k) for k in 'hxy') > 1:
+        return 'more than one handler invoked for one Interest'
+    if fe == 'v2':
+        ok = spec['verdict'] in c03.V2_ACCEPT
+    else:
+        ok = bool(c03.V1_TRUTH.get(spec['verdict'], False))
+    if 'y' in acts:
+        return ('an Interest that requires validation reached the handler of the shorter prefix, whose own validator '
+                + ('is missing (= rejection)' if fe == 'v2' else 'refuses everything'))
+    if 'h' in acts:
+        if not ok:
+            return 'an Interest reached its handler although the validator in force did not accept it'
+        if 'v' not in acts or acts.index('v') > acts.index('h'):
+            return 'an Interest that requires validation reached its handler without the validator being consulted first'
+    if 'x' in acts:
+        # the handler of the new registration: in force for it is the new registration's validator (opposite verdict)
+        if ok:
+            return 'an Interest reached the newly attached handler, whose validator refuses it'
+        if 'w' not in acts or acts.index('w') > acts.index('x'):
+            return 'an Interest reached the newly attached handler without that handler\'s validator being consulted first'
     return None
 
 
